@@ -1,1 +1,59 @@
-(* placeholder *)
+(** C20 — recovery can be interrupted and repeated.  See Props/C01.v for the
+    objects.  The full statement (every crash point inside a recovery run, any
+    depth) is REFUTED for the faithful model — the undo pass writes no log
+    records and does not stamp pages, so a second run undoes again — and the
+    witness reproduces on the engine (known finding F-REC-NOCLR).  What is
+    proved: any interruption that leaves on disk only pages that are prefix
+    states of the log (i.e. any crash before the undo pass has written a page:
+    during redo, with any evictions, at any nesting depth) is harmless; redo
+    alone is idempotent; a completed start-up (pages flushed, log truncated)
+    can be repeated any number of times.  Statements only. *)
+From Coq Require Import List NArith Bool Permutation.
+From SDB Require Import Base.Assoc Model.Page Model.Wal Proofs.WalProofs.
+Import ListNotations.
+Open Scope N_scope.
+
+(** Any two crash images of the same durable log — in particular the image left
+    by an interrupted recovery whose written pages are all redo results — recover
+    to the same tables.  [disk_ok] is preserved by the writes of the redo pass
+    ([redo_writes_keep_disk_ok]), so this applies at every nesting depth. *)
+Theorem recover_interruptible_partial : forall l disk disk' order order',
+  image_wf l disk = true -> disk_ok l disk' = true ->
+  Permutation order (losers l) -> Permutation order' (losers l) ->
+  forall p s, page_val (recover l order' disk') p s = page_val (recover l order disk) p s.
+Proof. exact recover_any_image. Qed.
+Print Assumptions recover_interruptible_partial.
+
+Theorem redo_writes_keep_disk_ok : forall l disk written, log_ok l = true -> disk_ok l disk = true ->
+  (forall p pg, In (p, pg) written -> exists k, (k <= length l)%nat /\ pg = get_page (redo (firstn k l) disk) p) ->
+  disk_ok l (written ++ disk) = true.
+Proof. exact redo_writes_ok. Qed.
+Print Assumptions redo_writes_keep_disk_ok.
+
+Theorem redo_idempotent : forall l disk, log_ok l = true -> disk_ok l disk = true ->
+  forall p, get_page (redo l (redo l disk)) p = get_page (redo l disk) p.
+Proof. exact redo_twice. Qed.
+Print Assumptions redo_idempotent.
+
+(** A completed start-up has flushed every page and truncated the log: running
+    it again, any number of times, changes nothing. *)
+Theorem completed_recovery_repeatable : forall ps n, Nat.iter n (recover [] []) ps = ps.
+Proof. exact recover_empty_iter. Qed.
+Print Assumptions completed_recovery_repeatable.
+
+(** The full statement fails: recovering the output of a recovery with the same
+    log (the state after an interruption between the flush of the undone pages
+    and the truncation of the log) applies the undo a second time; the page
+    operation fails where the engine panics. *)
+Theorem recover_twice_refuted : exists l disk order,
+  image_wf l disk = true /\ Permutation order (losers l) /\
+  forallb out_ok (recover_outs l order (recover l order disk)) = false.
+Proof. exact recover_twice_fails. Qed.
+Print Assumptions recover_twice_refuted.
+
+Example c20_nonvacuous :
+  let l := [ mkR 0 1 None KBegin; mkR 1 1 (Some 0) (KNewPage 0 5); mkR 2 1 (Some 1) (KInsert 5 0 [1;2;3]);
+             mkR 3 1 (Some 2) KCommit; mkR 4 3 None KBegin; mkR 5 3 (Some 4) (KInsert 5 1 [8;8]) ] in
+  image_wf l [] = true /\ disk_ok l [(5, mkAP 2 [Some ([1;2;3], false)])] = true /\
+  page_val (recover l [3] [(5, mkAP 2 [Some ([1;2;3], false)])]) 5 1 = None.
+Proof. vm_compute. repeat split. Qed.
